@@ -171,6 +171,7 @@ func evalCase(c *Case, drv *lib.Driver, guard bool) *caseResult {
 				Input: c, Model: fo[len(fo)-1], Impl: got})
 		}
 	}
+	storeChecks(cr)
 	if c.DBFault != "" && cr.obs.DBFaultFired && !headEq(headAfterMark(cr, cr.obs.DBFaultMark), lastHeadBeforeFault(cr)) {
 		cr.findings = append(cr.findings, finding{sig: "l1head-changed-by-a-failed-database-operation",
 			what: "the stored head changed although the read / write of the stored head failed"})
@@ -220,6 +221,139 @@ func evalCase(c *Case, drv *lib.Driver, guard bool) *caseResult {
 	cr.findings = append(cr.findings, fs...)
 	cr.stats, cr.wbUntil = stats, wbUntil
 	return cr
+}
+
+// storeChecks: what the client did to the key-value store and what the public accessor returned,
+// after every operation (round 4).
+//   - Blockchain.L1Head() == the record under the L1Height key at every provider call and at the end;
+//   - the client writes nothing but the L1Height key, never deletes it, and the sequence of values it
+//     writes is exactly the sequence of heads reported to the listener (no transient record);
+//   - the record changes only inside a setL1Head that got a finalised height (between a successful
+//     FinalisedHeight call and the next provider call), never anywhere else.
+func storeChecks(cr *caseResult) {
+	c, o := cr.c, cr.obs
+	if len(o.AccessorProblems) > 0 {
+		cr.findings = append(cr.findings, finding{sig: "l1head-accessor-differs-from-stored-record",
+			what: fmt.Sprintf("%s (%d such observations in this case)", o.AccessorProblems[0], len(o.AccessorProblems))})
+	}
+	var written []HeadJ
+	for _, w := range o.Writes {
+		switch {
+		case w.Key != "":
+			cr.mismatches = append(cr.mismatches, lib.Mismatch{Sig: "store: the L1 client wrote or deleted a key other than L1Height",
+				Input: c, Impl: w})
+		case w.Del:
+			cr.findings = append(cr.findings, finding{sig: "l1head-record-deleted",
+				what: "the L1 client deleted the stored L1 head"})
+		case w.Head == nil:
+			cr.findings = append(cr.findings, finding{sig: "l1head-unknown-value",
+				what: "the L1 client wrote a value under the L1Height key that does not decode as an L1 head"})
+		default:
+			written = append(written, *w.Head)
+			if w.Mark < 0 || w.Mark >= len(o.Marks) || o.Marks[w.Mark].Kind != "tick" {
+				cr.mismatches = append(cr.mismatches, lib.Mismatch{Sig: "store: the L1 client wrote a head although the provider call before it was not a successful finalised-height query",
+					Input: c, Impl: w})
+			}
+		}
+	}
+	if !o.DBFaultFired && o.Stalled == "" {
+		same := len(written) == len(o.Notes)
+		for i := 0; same && i < len(written); i++ {
+			same = written[i] == o.Notes[i]
+		}
+		if !same {
+			cr.findings = append(cr.findings, finding{sig: "l1head-record-written-without-notification",
+				what: fmt.Sprintf("values written under the L1Height key: %s; heads reported to the listener / feed: %s", headList(written), headList(o.Notes))})
+		}
+	}
+	// the record changes only across a successful finalised-height query. A change anywhere else is a
+	// difference from the model; it is a property violation when the new value is not the commit of a
+	// delivered, never removed log at or below a finalised height the L1 node has REPORTED so far.
+	for i := 0; i < len(o.Marks); i++ {
+		after := o.FinalHead
+		if i+1 < len(o.Marks) {
+			after = o.Marks[i+1].HeadBefore
+		}
+		if headEq(o.Marks[i].HeadBefore, after) || o.Marks[i].Kind == "tick" {
+			continue
+		}
+		cr.offPollChange(i, o.Marks[i].HeadBefore, after, fmt.Sprintf("after the provider call %q", o.Marks[i].Kind))
+		break
+	}
+	if len(o.Marks) == 0 && !headEq(c.Stored, o.FinalHead) {
+		cr.offPollChange(-1, c.Stored, o.FinalHead, "although the client never called the provider")
+	}
+}
+
+// offPollChange classifies a change of the stored head that did not happen inside a setL1Head that
+// had just been given a finalised height (mark index i; -1: before any provider call).
+func (cr *caseResult) offPollChange(i int, before, after *HeadJ, where string) {
+	c, o := cr.c, cr.obs
+	cr.mismatches = append(cr.mismatches, lib.Mismatch{Sig: "store: the stored head changed outside a finalised-height poll",
+		Input: c, Impl: fmt.Sprintf("%s -> %s %s", before, after, where)})
+	if after == nil {
+		cr.findings = append(cr.findings, finding{sig: "l1head-missing", what: fmt.Sprintf("the stored head %s disappeared %s", before, where)})
+		return
+	}
+	// finalised heights the L1 node has reported up to and including call i
+	haveFin, maxFin := false, uint64(0)
+	for k := 0; k <= i && k < len(o.Marks); k++ {
+		m := o.Marks[k]
+		if m.Kind != "tick" && m.Kind != "fin1" {
+			continue
+		}
+		f := m.Fin
+		if m.HasNodeFin {
+			f = m.NodeFin
+		}
+		if !haveFin || f > maxFin {
+			haveFin, maxFin = true, f
+		}
+	}
+	// every log the node delivered in this life (scanned or pushed), and the notices
+	var all []Log
+	for k := 0; k <= i && k < len(o.Marks); k++ {
+		if m := o.Marks[k]; m.Kind == "filter" {
+			for _, l := range c.Hist {
+				if m.From <= l.L1 && l.L1 <= m.To {
+					all = append(all, l.decoded())
+				}
+			}
+		}
+	}
+	all = append(all, o.Events...)
+	known, live, final := false, false, false
+	for _, l := range all {
+		if l.Removed || (HeadJ{L2: l.L2, Hash: l.Hash, Root: l.Root}) != *after {
+			continue
+		}
+		known = true
+		removed := false
+		for _, r := range all {
+			if r.Removed && sameLog(r, l) {
+				removed = true
+			}
+		}
+		if !removed {
+			live = true
+			if haveFin && l.L1 <= maxFin {
+				final = true
+			}
+		}
+	}
+	what := fmt.Sprintf("the stored head went %s -> %s %s", before, after, where)
+	switch {
+	case !known:
+		cr.findings = append(cr.findings, finding{sig: "l1head-unknown-value", what: what + ", which is not the commit of any delivered log"})
+	case !live:
+		cr.findings = append(cr.findings, finding{sig: "l1head-is-removed-event", what: what + ", a log that a removal notice had named"})
+	case !final:
+		h := "no finalised height at all"
+		if haveFin {
+			h = fmt.Sprintf("no finalised height above %d", maxFin)
+		}
+		cr.findings = append(cr.findings, finding{sig: "l1head-above-finalised", what: what + "; the L1 node had reported " + h + " by then"})
+	}
 }
 
 // lastHeadBeforeFault: the stored head sampled at the start of the poll whose database access failed.
@@ -335,6 +469,45 @@ func checkGethLayer(cr *caseResult, drv *lib.Driver) {
 	if strings.Join(want, "|") != strings.Join(got, "|") {
 		cr.mismatches = append(cr.mismatches, lib.Mismatch{Sig: "geth-forwarded-stream-differs-from-node-stream",
 			Input: c, Model: want, Impl: got})
+	}
+	// the hand-off chain under back-pressure (model `Pipe`): with the client stalled, exactly
+	// min(burst, 128) values reach its channel and none is received; once it resumes it receives
+	// the whole decoded node stream
+	if o.HoldFill >= 0 {
+		pl := []string{"pipenew"}
+		for _, l := range o.Emitted {
+			root, number, hash := rawValues(l)
+			rm := "0"
+			if l.Removed {
+				rm = "1"
+			}
+			pl = append(pl, fmt.Sprintf("raw %x %x %x %x %s", number, hash, root, l.L1, rm))
+		}
+		n := len(o.Emitted)
+		pl = append(pl, fmt.Sprintf("pipe a%d r%d", n, n+300), fmt.Sprintf("pipe d%d", n+300), "pipeout")
+		drvMu.Lock()
+		po, err := drv.AskAll(pl)
+		drvMu.Unlock()
+		if err != nil {
+			cr.fatal = append(cr.fatal, "Lean driver died or answered short: "+err.Error())
+			return
+		}
+		fill := n
+		if fill > 128 {
+			fill = 128
+		}
+		if k := len(po) - 3; !strings.HasPrefix(po[k], fmt.Sprintf("out=0 sink=%d ", o.HoldFill)) || o.HoldFill != fill {
+			cr.mismatches = append(cr.mismatches, lib.Mismatch{Sig: "geth-backpressure: values in the stalled client's channel differ from the model",
+				Input: c, Model: po[k], Impl: fmt.Sprintf("channel fill %d after a burst of %d", o.HoldFill, n)})
+		}
+		if k := len(po) - 2; po[k] != fmt.Sprintf("out=%d sink=0 hand=0 ch=0 up=0", n) {
+			cr.fatal = append(cr.fatal, "Lean driver: the drained pipe is not empty: "+po[k])
+		}
+		if exp := po[len(po)-1]; exp != orStr(strings.Join(got, "|"), "-") {
+			cr.mismatches = append(cr.mismatches, lib.Mismatch{Sig: "geth-backpressure: the client did not receive the whole node stream once and in order",
+				Input: c, Model: exp, Impl: got})
+		}
+		cr.gethCompared += 2
 	}
 	// catch-up queries
 	qi := 0
@@ -510,10 +683,14 @@ func main() {
 			cases = append(cases, wrap.Replay.Case)
 		}
 	} else {
+		// the long stall first: it keeps one worker busy for its whole (bounded, real) wait
+		cases = append(cases, stallCases(f.Scale(33000, 70000))...)
 		cases = append(cases, leadL11(), leadOvertake())
 		cases = append(cases, dbFaultCases()...)
 		cases = append(cases, enumCases(f.Scale(3, 4))...)
 		cases = append(cases, boundaryCases()...)
+		cases = append(cases, defaultChunkCases()...)
+		cases = append(cases, burstCases()...)
 		cases = append(cases, faultCases()...)
 		cases = append(cases, exhaustiveCatchups(f.Scale(3, 4))...)
 		cases = append(cases, catchupGrid(r.Fork(1), f.Scale(400, 20000))...)
@@ -561,8 +738,21 @@ func main() {
 	close(idx)
 	wg.Wait()
 
-	shrunk := map[string]bool{}
+	// findings are reported (and shrunk) from the cheap cases first: a case that makes the harness wait
+	// is reported only for a finding no other case shows, and as it is
+	ordered := make([]*caseResult, 0, len(results))
 	for _, cr := range results {
+		if !hasHold(cr.c) {
+			ordered = append(ordered, cr)
+		}
+	}
+	for _, cr := range results {
+		if hasHold(cr.c) {
+			ordered = append(ordered, cr)
+		}
+	}
+	shrunk := map[string]bool{}
+	for _, cr := range ordered {
 		c, o := cr.c, cr.obs
 		nontrivial := len(o.Notes) > 0 || cr.an.chunks > 0
 		key, _ := json.Marshal(c)
@@ -576,6 +766,36 @@ func main() {
 		if c.Stored != nil {
 			res.Hit("restart-with-stored-head")
 		}
+		if c.DefaultChunk {
+			res.Hit("newclient:default-chunk-size")
+		}
+		if o.NoOptions {
+			res.Hit("newclient:no-option-at-all")
+		}
+		res.HitN("poll:answered-after-failed-attempts", cr.an.retryPolls)
+		res.HitN("store:l1height-writes-by-client", len(o.Writes))
+		res.HitN("store:accessor-reads-compared", len(o.Marks)+1)
+		if c.Mode == "oneshot" || o.RunErrClass != "" {
+			res.Hit("returned:" + c.Mode + ":" + orStr(o.RunErrClass, "nil"))
+		}
+		for _, st := range cr.an.steps {
+			switch st.what {
+			case "poll given up":
+				res.Hit("poll:given-up-when-context-ended")
+			case "subscription given up":
+				res.Hit("subscription:given-up-when-context-ended")
+			case "subscription":
+				if st.expect != "attempt=0" {
+					res.Hit("subscription:succeeded-after-failed-attempts")
+				}
+			}
+		}
+		if o.HoldFill >= 0 {
+			res.Hit(fmt.Sprintf("stall:forwarder-blocked-on-a-stalled-client,burst=%d", len(o.Emitted)))
+		}
+		if o.MaxChanFill > 0 {
+			res.Hit(fmt.Sprintf("burst:update-channel-fill>=%d", fillBucket(o.MaxChanFill)))
+		}
 		if c.ChainIDMismatch {
 			res.Hit("chain-id-mismatch")
 		}
@@ -583,6 +803,9 @@ func main() {
 			switch m.Kind {
 			case "watchfail", "finerr", "filterfail", "chainidfail", "latestfail", "fin1fail":
 				res.Hit("fault:" + m.Kind)
+				if c.TimeoutErrors && m.Kind != "watchfail" {
+					res.Hit("fault-as-expired-call-timeout:" + m.Kind)
+				}
 			}
 		}
 		resubs := -1
@@ -704,19 +927,41 @@ func main() {
 			}
 			shrunk[fd.sig] = true
 			small := c
-			if f.Replay == "" && !strings.HasPrefix(c.Name, "lead-") {
-				small = shrink(c, fd.sig, drv, guard)
-			}
 			what := fd.what
-			for _, f2 := range evalCase(small, drv, guard).findings {
-				if f2.sig == fd.sig {
-					what = f2.what
+			// (a case with a long real wait is reported as it is: every shrink attempt would wait again)
+			if !hasHold(c) {
+				if f.Replay == "" && !strings.HasPrefix(c.Name, "lead-") {
+					small = shrink(c, fd.sig, drv, guard)
+				}
+				for _, f2 := range evalCase(small, drv, guard).findings {
+					if f2.sig == fd.sig {
+						what = f2.what
+					}
 				}
 			}
 			res.Violate(lib.Violation{Sig: fd.sig, What: what, Replay: map[string]any{"case": small}})
 		}
 	}
 	lib.Finish(f, res)
+}
+
+// fillBucket: the highest of the interesting channel-fill levels reached (128 = the client's channel full).
+func fillBucket(n int) int {
+	for _, b := range []int{128, 127, 65, 64, 63, 1} {
+		if n >= b {
+			return b
+		}
+	}
+	return 0
+}
+
+func hasHold(c *Case) bool {
+	for _, op := range c.Ops {
+		if op.Kind == "hold" {
+			return true
+		}
+	}
+	return false
 }
 
 func countKind(ms []Mark, k string) int {
